@@ -1813,7 +1813,30 @@ def c20(rec):
         builder().build(rec["t"])      # registers leaves and intermediates
     except Exception:  # noqa
         pass
+    # failure paths: operations that RAISE must not have changed their operands either (found by a
+    # seeded fault: a "retry with jitter" fallback that wrote into the caller's precision matrix).
+    # One probe per worker process is enough: its arrays join the watch of the first program.
+    if _C20_PROG[0] == 1:
+        from collections import OrderedDict as _OD
+        from funsor.gaussian import Gaussian as _G
+        sing = np.array([[1.0, 1.0], [1.0, 1.0]])
+        sing_b = np.array([[[1.0, 1.0], [1.0, 1.0]], [[2.0, 0.0], [0.0, 1.0]]])
+        iv, iv_b = np.array([1.0, 2.0]), np.array([[1.0, 2.0], [0.0, 1.0]])
+        indef = np.array([[1.0, 2.0], [2.0, 1.0]])
+        for a_ in (sing, sing_b, iv, iv_b, indef):
+            w.add_array(a_, "failure_probe")
+        _r2 = _OD(x=funsor.Reals[2])
+        _probes = [("gaussian_singular_precision", lambda: _G(info_vec=iv, precision=sing, inputs=_r2)),
+                   ("gaussian_singular_precision_batched",
+                    lambda: _G(info_vec=iv_b, precision=sing_b, inputs=_OD([("b", funsor.Bint[2]), ("x", funsor.Reals[2])]))),
+                   ("gaussian_indefinite_covariance", lambda: _G(mean=iv, covariance=indef, inputs=_r2)),
+                   ("cholesky_singular", lambda: funsor.ops.cholesky(sing)),
+                   ("cholesky_inverse_singular", lambda: funsor.ops.cholesky_inverse(sing))]
+    else:
+        _probes = []
     snap(0, "initial")
+    for _name, _fn in _probes:
+        run(_name, _fn)
     run("eager", eager_build)
     run("lazy", lazy_build)
     y = state.get("lazy")
@@ -1844,6 +1867,15 @@ def c20(rec):
             first = next(iter(x.inputs))
             run("reduce_max", lambda: x.reduce(fo.max, first))
             run("reduce_logaddexp", lambda: x.reduce(fo.logaddexp, first))
+    # align of LAZY terms (a Contraction forwards to its terms and may hand back a hash-consed,
+    # i.e. already held, object): the lazily built term and its normal form, to the reversed and
+    # to a rotated order of their inputs (found by a seeded fault that reordered .inputs in place)
+    for label in ("lazy", "normalize"):
+        z = state.get(label)
+        if isinstance(z, Funsor) and not isinstance(z, Tensor) and len(z.inputs) >= 2:
+            zn = list(z.inputs)
+            run("align_%s_reversed" % label, lambda z=z, zn=zn: z.align(tuple(reversed(zn))))
+            run("align_%s_rotated" % label, lambda z=z, zn=zn: z.align(tuple(zn[1:] + zn[:1])))
     if isinstance(x, Tensor):
         names = tuple(reversed(list(x.inputs)))
         run("align", lambda: x.align(names))
